@@ -1,7 +1,16 @@
 (* C11 — the packed representation of the LOUDS trie (layer 3, second half (b)):
    64-bit words, rank samples per word, select samples per 64 ones, integer arrays inside CompactBitLists
    ([ptrie] of C11_Louds.v) answer exactly like the logical arrays ([louds]) with naive rank/select.
-   Nothing admitted.  The CompactBitList get/set law is a Section hypothesis ([get_set]). *)
+   Nothing admitted, no axioms.
+   A/B  word level: get_bit_pack, ranks_pack_bits, popcount_mask, count_zeros_pack, sel_word_spec, sel_words_spec,
+        selects_of_spec, select_ith_one_pack (the integer arrays abstracted by "cbl_get ... = nth of the plain list");
+   D    packed_invariant / packed_root (Section Assembly): p_has_from = l_has_from along the numbering of
+        C11_NumberingProofs.v, for any [ptrie] that satisfies [views];
+   C    Section Packed: the list view of cbl_of_list and [views (pack_louds ..)] from the CompactBitList law, taken as
+        section hypotheses in the iterable form that C11_BitlistProofs.v proves (cbl_inv_new, cbl_inv_set);
+        instantiated at the end: packed_correct_sized_closed, packed_correct_keys.
+   The size bound (label bitmap shorter than 2^64 bits / keys shorter than 2^63 bytes in total) is needed: the
+   rank and select samples must fit the at most 64 bit wide units for which the CompactBitList law holds. *)
 From Coq Require Import List Arith NArith Bool Lia ZArith ZifyBool ZifyN ZifyNat Sorting.Sorted.
 From Dae Require Import C11_Spec C11_Model C11_Louds C11_LoudsProofs C11_NumberingProofs.
 Import ListNotations.
@@ -520,10 +529,6 @@ Qed.
 (* ================= C. the list view of cbl_of_list, from the get/set law ================= *)
 Definition cbl_step (m : cbl) (v : N) : cbl := match cbl_append m v with Some m' => m' | None => m end.
 
-Definition cbl_repr (u : N) (m : cbl) (vs : list N) : Prop :=
-  c_unit m = u /\ Forall (fun x => (x < 65536)%N) (c_buf m) /\ c_num m = N.of_nat (length vs) /\
-  forall k, k < length vs -> cbl_get m (N.of_nat k) = nth k vs 0%N.
-
 (* ================= D (part outside the section). structure of the arrays of NewTrie ================= *)
 Lemma vc_table_aux_bound : forall chars n c acc,
   (vc_table_aux chars n c acc <= N.max acc (n + N.of_nat (length chars)))%N /\
@@ -745,37 +750,51 @@ Section Assembly.
 End Assembly.
 
 (* ================= the part that rests on the CompactBitList get/set law ================= *)
+Lemma cbl_set_fields : forall m i v m', cbl_set m i v = Some m' ->
+  c_unit m' = c_unit m /\ c_num m' = N.max (c_num m) (i + 1).
+Proof.
+  intros m i v m' E. unfold cbl_set in E. destruct (c_unit m <? N.size v)%N; [discriminate|].
+  set (bb := set_loop 6 _ _ _ _ _) in E. clearbody bb. injection E as E'. rewrite <- E'. split; reflexivity.
+Qed.
+
+Lemma cbl_set_some : forall m i v, (v < 2 ^ c_unit m)%N -> cbl_set m i v <> None.
+Proof.
+  intros m i v Hv E. unfold cbl_set in E. pose proof (size_le_of_lt v _ Hv).
+  replace (c_unit m <? N.size v)%N with false in E by lia. discriminate.
+Qed.
+
+(* The law is taken in its iterable form (an invariant [inv] of the lists that NewCompactBitList/Set produce);
+   C11_BitlistProofs.v proves exactly these two statements for [inv := cbl_inv]; see the instantiation below. *)
 Section Packed.
-  Hypothesis get_set :
-    forall m i v m', (1 <= c_unit m <= 64)%N -> Forall (fun x => (x < 65536)%N) (c_buf m) -> (v < 2 ^ c_unit m)%N ->
-      cbl_set m i v = Some m' ->
-      cbl_get m' i = v /\ (forall j, j <> i -> cbl_get m' j = cbl_get m j)
-      /\ c_unit m' = c_unit m /\ Forall (fun x => (x < 65536)%N) (c_buf m').
+  Variable inv : cbl -> Prop.
+  Hypothesis inv_new : forall u, (1 <= u <= 64)%N -> inv (cbl_new u).
+  Hypothesis inv_set : forall m i v m', inv m -> cbl_set m i v = Some m' ->
+    inv m' /\ cbl_get m' i = v /\ forall j, j <> i -> cbl_get m' j = cbl_get m j.
+
+  Definition cbl_repr (u : N) (m : cbl) (vs : list N) : Prop :=
+    c_unit m = u /\ inv m /\ c_num m = N.of_nat (length vs) /\
+    forall k, k < length vs -> cbl_get m (N.of_nat k) = nth k vs 0%N.
 
   (* C. appending keeps the list view *)
-  Lemma cbl_step_repr : forall u m done v, (1 <= u <= 64)%N -> (v < 2 ^ u)%N ->
+  Lemma cbl_step_repr : forall u m done v, (v < 2 ^ u)%N ->
     cbl_repr u m done -> cbl_repr u (cbl_step m v) (done ++ [v]).
   Proof.
-    intros u m done v Hu Hv (Eu & Wf & En & Hget). unfold cbl_step, cbl_append.
+    intros u m done v Hv (Eu & I & En & Hget). unfold cbl_step, cbl_append.
     destruct (cbl_set m (c_num m) v) as [m'|] eqn:E.
-    - destruct (get_set m (c_num m) v m') as (G1 & G2 & G3 & G4); try assumption; try (rewrite Eu; assumption).
-      assert (En' : c_num m' = (c_num m + 1)%N).
-      { unfold cbl_set in E. destruct (c_unit m <? N.size v)%N; [discriminate|].
-        set (bb := set_loop 6 _ _ _ _ _) in E. clearbody bb.
-        injection E as E'. rewrite <- E'. cbn [c_num]. lia. }
-      split; [congruence|]. split; [exact G4|]. split; [rewrite app_length; cbn [length]; lia|].
+    - destruct (inv_set m (c_num m) v m' I E) as (I' & G1 & G2).
+      destruct (cbl_set_fields m (c_num m) v m' E) as (Eu' & En').
+      split; [congruence|]. split; [exact I'|]. split; [rewrite app_length; cbn [length]; lia|].
       intros k Hk. rewrite app_length in Hk. cbn [length] in Hk.
       destruct (Nat.eq_dec k (length done)) as [->|Nk].
       + rewrite <- En, G1. rewrite nth_middle. reflexivity.
       + rewrite G2 by lia. rewrite Hget by lia. rewrite app_nth1 by lia. reflexivity.
-    - exfalso. unfold cbl_set in E. pose proof (size_le_of_lt v u Hv). rewrite Eu in E.
-      replace (u <? N.size v)%N with false in E by lia. discriminate.
+    - exfalso. apply (cbl_set_some m (c_num m) v); [rewrite Eu; exact Hv | exact E].
   Qed.
 
-  Lemma cbl_fold_repr : forall u vs m done, (1 <= u <= 64)%N -> Forall (fun v => (v < 2 ^ u)%N) vs ->
+  Lemma cbl_fold_repr : forall u vs m done, Forall (fun v => (v < 2 ^ u)%N) vs ->
     cbl_repr u m done -> cbl_repr u (fold_left cbl_step vs m) (done ++ vs).
   Proof.
-    intros u. induction vs as [|v vs IH]; intros m done Hu Hvs R; cbn [fold_left].
+    intros u. induction vs as [|v vs IH]; intros m done Hvs R; cbn [fold_left].
     - rewrite app_nil_r. exact R.
     - inversion Hvs; subst. replace (done ++ v :: vs) with ((done ++ [v]) ++ vs) by (rewrite <- app_assoc; reflexivity).
       apply IH; try assumption. apply cbl_step_repr; assumption.
@@ -786,8 +805,8 @@ Section Packed.
   Proof.
     intros u vs k Hu Hvs Hk.
     assert (R0 : cbl_repr u (cbl_new u) []).
-    { split; [reflexivity|]. split; [constructor|]. split; [reflexivity|]. intros k' Hk'. cbn [length] in Hk'. lia. }
-    destruct (cbl_fold_repr u vs (cbl_new u) [] Hu Hvs R0) as (_ & _ & _ & G). apply G. exact Hk.
+    { split; [reflexivity|]. split; [apply inv_new; exact Hu|]. split; [reflexivity|]. intros k' Hk'. cbn [length] in Hk'. lia. }
+    destruct (cbl_fold_repr u vs (cbl_new u) [] Hvs R0) as (_ & _ & _ & G). apply G. exact Hk.
   Qed.
 
   (* the same including unit width 0, which arises exactly when every entry is 0 *)
@@ -851,3 +870,122 @@ Section Packed.
       rewrite Forall_forall in F. exact F.
   Qed.
 End Packed.
+
+(* ================= instantiation with the proved CompactBitList law ================= *)
+From Dae Require C11_BitlistProofs.
+
+Theorem cbl_of_list_get_closed : forall u vs k, (u <= 64)%N -> Forall (fun v => (v < 2 ^ u)%N) vs ->
+  k < length vs -> cbl_get (cbl_of_list u vs) (N.of_nat k) = nth k vs 0%N.
+Proof.
+  exact (cbl_of_list_get0 C11_BitlistProofs.cbl_inv C11_BitlistProofs.cbl_inv_new C11_BitlistProofs.cbl_inv_set).
+Qed.
+
+Theorem packed_correct_sized_closed :
+  forall chars keys w L, NoDup chars -> length chars <= 256 -> keys <> [] ->
+    l_new chars keys = Some L -> (N.of_nat (length (l_lbm L)) < 2 ^ 64)%N ->
+    p_has chars (pack_louds chars L) w = l_has chars L w.
+Proof.
+  exact (packed_correct_sized C11_BitlistProofs.cbl_inv C11_BitlistProofs.cbl_inv_new C11_BitlistProofs.cbl_inv_set).
+Qed.
+
+Print Assumptions packed_correct_sized_closed.
+
+(* ================= the size bound in terms of the keys ================= *)
+(* total number of bytes of a key list *)
+Definition wt (g : list str) : nat := fold_right (fun k s => length k + s) 0 g.
+Definition cost (l : list node) : nat := list_sum (map (fun g => S (wt g)) l).
+Definition tw (l : list node) : nat := list_sum (map wt l).
+
+Lemma wt_cons : forall k r, wt (k :: r) = length k + wt r.
+Proof. reflexivity. Qed.
+
+Lemma groups_wt : forall g, list_sum (map (fun k => S (wt (snd k))) (groups g)) <= wt g.
+Proof.
+  induction g as [|k r IH]; [cbn; lia|]. rewrite wt_cons. destruct k as [|c t]; cbn [groups]; [cbn [length]; lia|].
+  destruct (groups r) as [|[c' ts] gs].
+  - unfold list_sum. cbn [map fold_right snd]. rewrite wt_cons. cbn [length wt fold_right]. lia.
+  - unfold list_sum in *. cbn [map fold_right snd] in IH.
+    destruct (c =? c')%N; cbn [map fold_right snd]; rewrite !wt_cons; cbn [length]; change (wt []) with 0; lia.
+Qed.
+
+Lemma drop_leaf_wt : forall g, wt (drop_leaf g) <= wt g.
+Proof. intros [|[|c t] r]; cbn [drop_leaf]; try lia. rewrite wt_cons. lia. Qed.
+
+Lemma cost_app : forall a b, cost (a ++ b) = cost a + cost b.
+Proof. intros. unfold cost. rewrite map_app, list_sum_app. reflexivity. Qed.
+
+Lemma cost_tw : forall l, cost l = length l + tw l.
+Proof. induction l as [|g l IH]; [reflexivity|]. unfold cost, tw, list_sum in *. cbn [map fold_right length]. lia. Qed.
+
+Lemma next_cost : forall l, cost (next l) <= tw l.
+Proof.
+  induction l as [|g l IH]; [cbn; lia|]. unfold next in *. cbn [flat_map]. rewrite cost_app.
+  change (tw (g :: l)) with (wt g + tw l).
+  assert (Hc : cost (ch g) <= wt g); [|lia].
+  unfold cost, ch, kids. rewrite map_map. etransitivity; [exact (groups_wt (drop_leaf g)) | apply drop_leaf_wt].
+Qed.
+
+Lemma bfs_length : forall f l, length (bfs f l) <= cost l.
+Proof.
+  induction f as [|f IH]; intros l; [cbn [bfs length]; lia|]. cbn [bfs].
+  destruct l as [|g l']; [cbn; lia|]. set (l := g :: l').
+  change (flat_map (fun g0 : node => map snd (kids g0)) l) with (next l).
+  rewrite app_length. specialize (IH (next l)). pose proof (next_cost l). rewrite (cost_tw l). lia.
+Qed.
+
+Lemma uniq_wt : forall l, wt (uniq l) <= wt l.
+Proof.
+  induction l as [|a l IH]; [cbn; lia|]. destruct l as [|b l']; [cbn [uniq]; lia|].
+  rewrite uniq_cons2'. destruct (str_eqb a b); rewrite !wt_cons in *; lia.
+Qed.
+
+Lemma perm_wt : forall a b, Permutation.Permutation a b -> wt a = wt b.
+Proof. induction 1; rewrite ?wt_cons in *; lia. Qed.
+
+Lemma sort_uniq_wt : forall keys, wt (sort_uniq keys) <= wt keys.
+Proof.
+  intros keys. unfold sort_uniq. pose proof (uniq_wt (StrSort.sort keys)).
+  rewrite (perm_wt keys (StrSort.sort keys) (StrSort.Permuted_sort keys)). exact H.
+Qed.
+
+Theorem lbm_length_keys : forall chars keys,
+  length (l_lbm (louds_of_nodes chars (bfs_nodes keys))) <= 2 * wt keys + 1.
+Proof.
+  intros chars keys. change (l_lbm (louds_of_nodes chars (bfs_nodes keys))) with (lbm_of (bfs_nodes keys)).
+  rewrite lbm_of_length. pose proof (bfs_nodes_fix keys) as F. apply (f_equal (@length node)) in F. cbn [length] in F.
+  assert (length (bfs_nodes keys) <= S (wt keys)); [|lia].
+  unfold bfs_nodes. cbv zeta. etransitivity; [apply bfs_length|]. unfold cost, list_sum. cbn [map fold_right].
+  pose proof (sort_uniq_wt keys). lia.
+Qed.
+
+(* the final statement with the size bound on the input: the keys have fewer than 2^63 bytes in total *)
+Theorem packed_correct_keys :
+  forall chars keys w L, NoDup chars -> length chars <= 256 -> keys <> [] ->
+    l_new chars keys = Some L -> (2 * N.of_nat (wt keys) + 1 < 2 ^ 64)%N ->
+    p_has chars (pack_louds chars L) w = l_has chars L w.
+Proof.
+  intros chars keys w L ND Hlen Hne Hnew Hsize. apply (packed_correct_sized_closed chars keys w L ND Hlen Hne Hnew).
+  unfold l_new in Hnew. destruct (keys_valid chars keys); [|discriminate]. inversion Hnew; subst.
+  pose proof (lbm_length_keys chars keys). lia.
+Qed.
+
+Print Assumptions packed_correct_keys.
+
+(* non-vacuity: the hypotheses are satisfiable and both sides take both truth values *)
+Example packed_nonvacuous :
+  let chars := [97; 98; 99; 100]%N in
+  let keys := [[97;98]; [97]; [97;98;99]; [98;99]; [97;98]]%N in
+  NoDup chars /\ length chars <= 256 /\ keys <> [] /\ (2 * N.of_nat (wt keys) + 1 < 2 ^ 64)%N /\
+  match l_new chars keys with
+  | Some L => map (p_has chars (pack_louds chars L)) [[97]; [98]; [98;99;100]; [97;120]; []; [99]]%N
+              = [true; false; true; true; false; false]
+  | None => False
+  end.
+Proof.
+  cbv zeta. split; [|split; [|split; [|split]]].
+  - repeat constructor; cbn; intuition discriminate.
+  - cbn. lia.
+  - discriminate.
+  - vm_compute. reflexivity.
+  - vm_compute. reflexivity.
+Qed.
